@@ -18,9 +18,9 @@ type c02Case struct {
 	Body    Octets           `json:"body"`    // message octets as sent (before the end marker); no true end marker inside
 	Markers []string         `json:"markers"` // command lines pipelined after the end marker
 	Cuts    []int            `json:"cuts,omitempty"`
-	Mode    int              `json:"mode"`  // 0 SMTP, 1 LMTP plain backend, 2 LMTP per-recipient backend
-	NRcpt   int              `json:"nrcpt"` // 1..3
-	Limit   int64            `json:"limit"` // MaxMessageBytes, 0 = none
+	Mode    int              `json:"mode"`       // 0 SMTP, 1 LMTP plain backend, 2 LMTP per-recipient backend
+	NRcpt   int              `json:"nrcpt"`      // 1..3
+	Limit   int64            `json:"limit"`      // MaxMessageBytes, 0 = none
 	ReadLim int              `json:"read_limit"` // -1 = read everything, k = stop after k octets
 	Reads   []int            `json:"reads,omitempty"`
 	Result  harness.Decision `json:"result"`
